@@ -13,7 +13,7 @@ RULE = ("bonds / angles / constraints: type entry {exact, reversed, absent} x in
         "positive grid. Oracle: candidates = entries matching forward or reversed with X as wildcard; the entry used must have the "
         "minimal number of wildcards among the candidates, the same for both listing directions; OSError iff no candidate; all "
         "terms in every instance; pair table symmetric, explicit wins, self terms from atom types, 4 eps sigma^6 = C6 and "
-        "4 eps sigma^12 = C12. distinct_nontrivial = inputs with >=1 wildcard entry or >=2 candidates or a macro / multi-term")
+        "4 eps sigma^12 = C12; an interaction takes exactly the entries of its own function type (error if there is none). distinct_nontrivial = inputs with >=1 wildcard entry or >=2 candidates or a macro / multi-term")
 ASSUMPTIONS = ["the values produced by the combination rule itself are not judged (the property does not state them)",
                "ties between equally specific wildcard entries may be resolved either way"]
 BUDGET = {"quick": 420, "thorough": 2400}
@@ -350,7 +350,76 @@ def check_nb(case, stats):
     return viols, bool(case["explicit"])
 
 
+# ---------------------------------------------------------------- function types
+FUNC_TABLES = {
+    # section: (types section, n atoms, {function: parameter strings})
+    "dihedrals": ("dihedraltypes", 4, {"9": ["0 1.5 1"], "4": ["180 10.5 2"], "2": ["35.3 334"], "1": ["120 3.5 3"]}),
+    "angles": ("angletypes", 3, {"1": ["109.5 400"], "5": ["110.0 300 0.21 2000"], "2": ["120 50"]}),
+    "bonds": ("bondtypes", 2, {"1": ["0.153 2000"], "2": ["0.153 9.5e6"], "6": ["0.16 800"]}),
+}
+
+
+def functype_cases(tier):
+    for sec, (tsec, n, table) in FUNC_TABLES.items():
+        funcs = sorted(table)
+        for present in itertools.chain.from_iterable(itertools.combinations(funcs, r) for r in (1, 2, 3)):
+            for order in (present, present[::-1]) if len(present) > 1 else (present,):
+                for wanted in funcs:
+                    for wild in ((False, True) if sec == "dihedrals" else (False,)):
+                        for listing in ("fwd", "bwd"):
+                            yield dict(kind="functype", sec=sec, present=list(order), wanted=wanted, wild=wild, listing=listing)
+
+
+def check_functype(case, stats):
+    """a types table holding entries of several function types for the same atom types (proper / improper dihedral types,
+    harmonic / Urey-Bradley angles, ...): an interaction takes the entry of its own function type, as grompp does"""
+    sec = case["sec"]
+    tsec, n, table = FUNC_TABLES[sec]
+    seq = ["TA", "TB", "TC", "TD"][:n]
+    lines = []
+    for f in case["present"]:
+        key = seq
+        if case["wild"]:
+            # the improper-like functions get a pattern with the wildcards in front, the others on the outside
+            key = (["X", "X"] + seq[2:]) if f in ("4", "2") else (["X"] + seq[1:3] + ["X"])
+        for par in table[f]:
+            lines.append(" ".join(key) + f" {f} {par}")
+    idx = list(range(1, n + 1))
+    if case["listing"] == "bwd" and not (case["wild"]):
+        idx = idx[::-1]
+    inter = {"bonds": ["1 2 1 0.1 10", "2 3 1 0.1 10", "3 4 1 0.1 10"][: max(1, n - 1)]}
+    if sec == "bonds":
+        inter = {}
+    inter[sec] = [" ".join(map(str, idx)) + " " + case["wanted"]]
+    text = top_text(AT_LINES, {tsec: lines}, seq + (["TD"] if n < 4 else []), inter, 2)
+    info = f" | [ {tsec} ] {lines}; interaction {inter[sec][0]!r}"
+    viols = []
+    want = sorted((case["wanted"],) + tuple(par.split()) for par in table[case["wanted"]]) if case["wanted"] in case["present"] else None
+    pure = ["table-has-only-the-wanted-function"] if case["present"] == [case["wanted"]] else []
+    try:
+        top = read_pre(text)
+    except OSError as exc:
+        if want is not None:
+            viols.append(dict(assertion="bonded-type-of-same-function", tags=["error-although-type-present"] + pure, message=f"OSError {exc}" + info, case=case, detail={}))
+        return viols, True
+    except Exception as exc:  # noqa
+        return [crash_violation(exc, case, assertion="preprocess-does-not-crash")], True
+    for inst in inter_of(top, sec):
+        got = sorted(p for a, p in inst if len(a) == n and (sec != "bonds" or p[1:] != ("0.1", "10")))
+        if want is None:
+            viols.append(dict(assertion="bonded-type-of-same-function", tags=["no-type-of-this-function"],
+                              message=f"no entry of function {case['wanted']} exists, the interaction got {got} instead of an error" + info, case=case, detail={}))
+        elif got != want:
+            viols.append(dict(assertion="bonded-type-of-same-function", tags=["other-function-mixed-in"] + pure,
+                              message=f"got {got} expected {want}" + info, case=case, detail={}))
+        break
+    return viols, len(case["present"]) > 1
+
+
 def cases(tier):
+    batch = list(functype_cases(tier))
+    for i in range(0, len(batch), 24):
+        yield dict(kind="batch", items=batch[i:i + 24], tier=tier)
     batch = []
     for c in dih_cases(tier):
         batch.append(c)
@@ -367,7 +436,7 @@ def cases(tier):
         yield dict(kind="batch", items=batch[i:i + 24], tier=tier)
 
 
-FUNCS = {"multimol": check_multimol, "dih": check_dih, "simple": check_simple, "macro": check_macro, "opls": check_opls, "nb": check_nb}
+FUNCS = {"functype": check_functype, "multimol": check_multimol, "dih": check_dih, "simple": check_simple, "macro": check_macro, "opls": check_opls, "nb": check_nb}
 
 
 def run_case(case):
